@@ -281,8 +281,7 @@ def extra(uni, tier, seed):
             out.append(Extra("C17:" + ob.name, False, f"solver: {r}",
                              kind="VC of SymbolicMaths.never_equal",
                              undecided=(r != "sat"),
-                             replay={"confirmed": False, "obligation": ob.name,
-                                     "solver": r}))
+                             replay=_never_equal_replay(ob.name, r)))
     for k, v in u2.repo.used.items():
         uni.repo.used[k] = v
     out.append(Extra("C17:SymbolicMaths.never_equal#all",
@@ -291,3 +290,14 @@ def extra(uni, tier, seed):
                      "never_equal contract (shared with C17)", count=n_ok,
                      undecided=bool(rep.unsupported)))
     return out
+
+
+def _never_equal_replay(obname, solver):
+    rp = {"confirmed": False, "obligation": obname, "solver": solver}
+    if "never_equal" in obname:
+        from realise import C17 as R17
+        got = R17.never_equal_cases()
+        if got.get("confirmed"):
+            got.update({"obligation": obname, "solver": solver})
+            return got
+    return rp
